@@ -461,7 +461,7 @@ def gen_two_routes(rng):
         elif kind == "net": A.append("net " + x); B.append("cb net " + x)
         elif kind == "rate": A.append(f"net {x} {sim_suite.fbits(0.5)}"); B.append(f"cb net {x} 1")
         else: A.append(f"crash {x}"); B.append(f"cb crash {x}")
-    A.append(run); B += ["refenum", run]
+    A += ["refenum", run]; B += ["refenum", run]
     return A, B
 
 
@@ -494,6 +494,23 @@ def run_two_routes(v, tier, seed, name="routes", n_quick=200, n_thorough=3000):
                 cov_known = v.coverage.setdefault(name, {}); cov_known["route_known_finding_D15"] = cov_known.get("route_known_finding_D15", 0) + 1
                 continue
         if ka == kb == "result=ok" and sa != sb:
+            # both routes explore with the real checker, so finding D1 (an overridden timer's old event stays pending) can add
+            # states on either route; what the property is about is the contract-conforming exploration: when the implementation
+            # follows the (defective) model variant exactly on both routes, the reference variants of the two routes decide
+            ma_, mb_ = model.get(f"a{i}", []), model.get(f"b{i}", [])
+            va_ = set(nproj(l[2:]) for l in ma_ if l.startswith("V ")); vb_ = set(nproj(l[2:]) for l in mb_ if l.startswith("V "))
+            ok_a = any(l.startswith("vres=ok") for l in ma_); ok_b = any(l.startswith("vres=ok") for l in mb_)
+            if ok_a and ok_b and [l for l in ia if l.startswith("E ")] == [l for l in ma_ if l.startswith("E ")] and \
+               [l for l in ib if l.startswith("E ")] == [l for l in mb_ if l.startswith("E ")]:
+                cov_d1 = v.coverage.setdefault(name, {})
+                if va_ == vb_:
+                    cov_d1["route_pairs_skipped_D1"] = cov_d1.get("route_pairs_skipped_D1", 0) + 1
+                    continue
+                if va_ < vb_ and mc_checks.has_finding(v.pid, "D15-snapshot-timer-order"):
+                    cov_d1["route_known_finding_D15"] = cov_d1.get("route_known_finding_D15", 0) + 1
+                    v.known_finding("D15-snapshot-timer-order: after a prefix that sets several timers of one process with different delays at one "
+                                    "instant, exploring from the snapshot visits a strict subset (the real firing order) of what the callback route visits")
+                    continue
             # finding D1 lives in the callback route only (the simulator cancels an overridden timer): if the callback route follows
             # the defective model variant exactly and its contract-conforming variant agrees with the snapshot route, the
             # difference is D1, which is not a statement about the snapshot
